@@ -7,6 +7,9 @@ From FT Require Import Model.Base Model.Obs Model.C16Metrics Model.C16Nest Model
 Import ListNotations.
 Open Scope Z_scope.
 
+Section WithZZ.
+Context {zz : ZZ}.
+
 Definition env_ok (e : env) : Prop := Forall (fun t => sorted_t t = true) e.
 Definition fib_ok (es : fib) : Prop := ssorted_f es /\ Forall (fun ct => sorted_t (snd ct) = true) es.
 
@@ -409,3 +412,5 @@ Proof.
   split; [apply S1|]. intros kk Hin. destruct (E1 kk) as (data & Ed & Od). exists data.
   split; auto. unfold st'. rewrite content_is_emits by auto. rewrite Ed. reflexivity.
 Qed.
+
+End WithZZ.
